@@ -7,6 +7,8 @@ from .. import paths
 from ..core import FUNC, call_attr, calls_in, const, dotted, is_const, kwarg, norm, slice_parts, text, walk_local
 
 EXPLANATION = [
+    'C14.unsigned-reads: every integer conversion of the SMP toolbox in bumble/crypto/__init__.py (int.from_bytes / to_bytes, struct formats) is unsigned.',
+    'C14.coordinates-mod-p: no arithmetic expression of the built-in elliptic-curve code combines the group order n with a point coordinate (coordinates are mod p).',
     'C14.jacobian-z: every _JacobianPoint(...) construction passes z explicitly (the default z=0 is the point at infinity) and the generator is built with z=1.',
     'C14.public-key-siblings: EccKey.y of the pure-Python back end is computed exactly like EccKey.x (the other coordinate of the same generate_public_key result), not recovered through a square root.',
     'C14.jacobian-double: in the pure-Python back end _JacobianPoint.double returns the point at infinity exactly under `self.z == 0 or self.y == 0`: x does not take part in the degenerate test.',
@@ -641,7 +643,55 @@ def jacobian_z(ctx):
     R.check(n >= 5, rule, f'{B} | _JacobianPoint constructions', f'{n}', f'only {n} found')
 
 
+def coordinates_mod_p(ctx):
+    """Point coordinates live in the field (mod p); n is the order of the group and applies to scalars only: no expression
+    of the built-in back end combines n with a coordinate (`n - y` is not the negation of y)."""
+    R, p = ctx.r, ctx.p
+    rule = 'C14.coordinates-mod-p'
+    m = p.modules.get(B)
+    if m is None:
+        R.bad(rule, B, 'anchor missing')
+        return
+    n = 0
+    for b in [x for x in ast.walk(m.tree) if isinstance(x, ast.BinOp)]:
+        n += 1
+        sides = (b.left, b.right)
+        has_n = any((dotted(s_) or '').split('.')[-1] == 'n' and len((dotted(s_) or '').split('.')) >= 2 for s_ in sides)
+        has_xy = any(isinstance(x, ast.Attribute) and x.attr in ('x', 'y', 'z') for s_ in sides for x in ast.walk(s_)) or any(isinstance(s_, ast.Name) and s_.id in ('x', 'y', 'x1', 'y1', 'x2', 'y2', 'x3', 'y3') for s_ in sides)
+        if has_n and has_xy:
+            R.bad(rule, f'{p.qual_of(b)} | {norm(b)[:40]}', f'`{norm(b)[:60]}` combines the group order n with a point coordinate: coordinates are reduced modulo the field prime p, so the result is not on the curve (public keys for the affected scalars are rejected by a conformant peer)', f'{m.rel}:{b.lineno}')
+    R.check(n >= 30, rule, f'{B} | arithmetic expressions', f'{n} binary operations, none mixes n with a coordinate', f'only {n} found')
+
+
+def unsigned_reads(ctx):
+    """The SMP functions are defined on unsigned quantities: bumble.crypto reads integers out of MACs / keys with
+    int.from_bytes(..., signed=False) or unsigned struct formats only (g2 = CMAC mod 2^32 is in [0, 2^32))."""
+    R, p = ctx.r, ctx.p
+    rule = 'C14.unsigned-reads'
+    n = 0
+    for mn in ('bumble.crypto',):  # the SMP toolbox; the pure-Python AES of bumble.crypto.builtin works on signed words by design
+        m = p.modules.get(mn)
+        if m is None:
+            R.bad(rule, mn, 'anchor missing')
+            continue
+        for c in [x for x in ast.walk(m.tree) if isinstance(x, ast.Call)]:
+            d = dotted(c.func) or ''
+            if d.endswith('from_bytes') or d.endswith('to_bytes'):
+                n += 1
+                s_ = kwarg(c, 'signed')
+                R.check(s_ is None or (is_const(s_) and const(s_) is False), rule, f'{p.qual_of(c)} | {norm(c)[:40]}', 'unsigned', f'`{norm(c)[:60]}` converts as a signed integer', f'{m.rel}:{c.lineno}')
+            if d.startswith('struct.unpack') or d.startswith('struct.pack'):
+                n += 1
+                f = c.args[0] if c.args else None
+                signed = is_const(f) and isinstance(const(f), str) and any(ch in 'bhilq' for ch in const(f))
+                R.check(not signed, rule, f'{p.qual_of(c)} | {norm(c)[:40]}', 'unsigned format', f'`{norm(c)[:60]}` uses a signed format: values with the top bit set come out negative (g2 and the 6-digit code derived from it differ from a conformant peer\'s for half of all inputs)', f'{m.rel}:{c.lineno}')
+    fn = p.find('bumble.crypto.g2')
+    R.check(fn is not None and n >= 1, rule, 'bumble.crypto | integer conversions', f'{n} conversions, all unsigned', f'only {n} conversions found / g2 missing')
+
+
 RULES = [
+    ('C14.unsigned-reads', unsigned_reads),
+    ('C14.coordinates-mod-p', coordinates_mod_p),
     ('C14.jacobian-z', jacobian_z),
     ('C14.public-key-siblings', public_key_siblings),
     ('C14.jacobian-double', jacobian_double),
